@@ -70,6 +70,7 @@ func genRelayPlan(r *rand.Rand) *ProxyPlan {
 	}
 	rs.Extra = append(pickSome(r, respE2E, 0.4), pickSome(r, respHop, 0.35)...)
 	rs.NoCloseEcho = r.IntN(2) == 0
+	rs.Gzip = r.IntN(3) == 0
 	if rs.Status >= 301 && rs.Status <= 307 {
 		rs.Extra = append(rs.Extra, [2]string{"Location", "http://origin.test/elsewhere?x=1"})
 	}
@@ -91,6 +92,22 @@ func genRelayPlan(r *rand.Rand) *ProxyPlan {
 		}
 		if r.IntN(4) == 0 {
 			q.ReadChunk = 4096
+		}
+		if rs.Gzip {
+			// who accepts gzip says so; everybody else names no encoding at all or "identity" (above)
+			var hdr [][2]string
+			for _, kv := range q.Hdr {
+				if !strings.EqualFold(kv[0], "Accept-Encoding") {
+					hdr = append(hdr, kv)
+				}
+			}
+			switch r.IntN(3) {
+			case 0:
+				hdr = append(hdr, [2]string{"Accept-Encoding", "gzip"})
+			case 1:
+				hdr = append(hdr, [2]string{"Accept-Encoding", "identity"})
+			}
+			q.Hdr = hdr
 		}
 		reqs = append(reqs, q)
 		if q.Method == "GET" && r.IntN(2) == 0 {
@@ -247,6 +264,22 @@ func judgeRelay(w *proxyWorld, res *Result) {
 				if !eqStrings(got, want) {
 					res.violate("C08.b", "request-header-changed: "+name, "%s: client sent %s: %q, origin received %q [%s]", desc, name, want, got, pd)
 				}
+			}
+			// fields the client never sent: the proxy may add what a proxy adds (Via, forwarding
+			// notes), framing, and its own validators when it revalidates; anything else changes what
+			// the origin is asked on the client's behalf
+			for _, name := range sortedHeaderNames(c.Hdr) {
+				if seen[name] {
+					continue
+				}
+				if name == "Cache-Control" && len(valuesOf(ex.Req.Hdr, "Pragma")) > 0 {
+					continue // net/http's request parser (the proxy's and the origin model's) adds it for "Pragma: no-cache"
+				}
+				switch name {
+				case "Via", "Forwarded", "X-Forwarded-For", "X-Forwarded-Host", "X-Forwarded-Proto", "Content-Length", "Transfer-Encoding", "Connection", "If-None-Match", "If-Modified-Since":
+					continue
+				}
+				res.violate("C08.b", "request-header-added: "+name, "%s: origin received %s: %q, which the client did not send [%s]", desc, name, c.Hdr.Values(name), pd)
 			}
 			wantLen := 0
 			switch ex.Method {
